@@ -33,23 +33,23 @@ fn usage() -> ! {
 
 fn runs_for(prop: &str, thorough: bool) -> u64 {
     let (q, t) = match prop {
-        "C01" => (600_000, 6_000_000),
-        "C02" => (400_000, 4_000_000),
-        "C04" => (400_000, 4_000_000),
-        "C05" => (300_000, 3_000_000),
-        "C06" => (600_000, 6_000_000),
-        "C07" => (400_000, 4_000_000),
-        "C08" => (400_000, 4_000_000),
-        "C09" => (400_000, 4_000_000),
-        "C10" => (500_000, 5_000_000),
-        "C11" => (400_000, 4_000_000),
-        "C12" => (100_000, 600_000),
-        "C13" => (400_000, 4_000_000),
-        "C14" => (400_000, 4_000_000),
-        "C16" => (600_000, 6_000_000),
-        "C17" => (1_000_000, 10_000_000),
-        "C18" => (400_000, 4_000_000),
-        "C20" => (400_000, 4_000_000),
+        "C01" => (600_000, 30_000_000),
+        "C02" => (400_000, 20_000_000),
+        "C04" => (1_000_000, 50_000_000),
+        "C05" => (1_500_000, 75_000_000),
+        "C06" => (600_000, 30_000_000),
+        "C07" => (400_000, 20_000_000),
+        "C08" => (400_000, 20_000_000),
+        "C09" => (400_000, 20_000_000),
+        "C10" => (2_000_000, 100_000_000),
+        "C11" => (400_000, 20_000_000),
+        "C12" => (100_000, 1_500_000),
+        "C13" => (1_500_000, 75_000_000),
+        "C14" => (1_500_000, 75_000_000),
+        "C16" => (2_000_000, 100_000_000),
+        "C17" => (2_000_000, 100_000_000),
+        "C18" => (400_000, 20_000_000),
+        "C20" => (400_000, 8_000_000),
         _ => (20_000, 200_000),
     };
     if thorough { t } else { q }
